@@ -388,8 +388,11 @@ public:
             facts.push_back({"field", FLD->getNameAsString(), K.ex(FLD->getInClassInitializer()), K.ty(FLD->getType()), nullptr});
     }
     if (auto* CD = dyn_cast<CXXConstructorDecl>(FD))
-      for (auto* I : CD->inits()) if (I->isWritten() && I->getInit())
+      for (auto* I : CD->inits()) if (I->isWritten() && I->getInit()) {
         facts.push_back({"ctorinit", I->isAnyMemberInitializer() ? I->getAnyMember()->getNameAsString() : "<base>", K.ex(I->getInit()), "", nullptr});
+        // calls and dereferences inside a member initialiser are executed too: collect them like body statements
+        V.TraverseStmt(I->getInit());
+      }
 
     std::unique_ptr<CFG> cfg; std::unique_ptr<CFGDomTree> DT; std::map<const Stmt*, const CFGBlock*> where;
     bool cfgok = false;
